@@ -1,5 +1,7 @@
 package stringlib
 
+import "math"
+
 type packsizer struct {
 	packFormatReader
 	size uint
@@ -64,7 +66,9 @@ func (s *packsizer) align(n uint) bool {
 			return false
 		}
 		if r := s.size % n; r != 0 {
-			s.size += n - r
+			if !s.inc(n - r) {
+				return false
+			}
 		}
 	}
 	if s.alignOnly {
@@ -76,6 +80,11 @@ func (s *packsizer) align(n uint) bool {
 }
 
 func (s *packsizer) inc(n uint) bool {
+	// The result must be a Lua integer
+	if n > math.MaxInt64-s.size {
+		s.err = errResultTooLarge
+		return false
+	}
 	s.size += n
 	return true
 }
